@@ -15,6 +15,7 @@ import (
 
 	"github.com/iden3/go-iden3-crypto/poseidon"
 	"github.com/iden3/go-merkletree-sql/v2"
+	"github.com/iden3/go-schema-processor/v2/merklize"
 	"github.com/iden3/go-schema-processor/v2/verifiable"
 )
 
@@ -192,10 +193,45 @@ func defaultRegistryCase(out *Out, r *Rng) {
 		Tags: []string{"fault:none", "default-registry", fmt.Sprintf("member:%v", defaultRegRevoked[q])}, NT: true})
 }
 
+// the status is resolved anew on every verification: one options value (one registry) used for several verifications must see
+// a revocation that happens in between
+func emitStatusOptionReuse(out *Out, r *Rng) {
+	s := newVerifySetup(r, true, 2)
+	s.vc.Proof = verifiable.CredentialProofs{s.is.SignBJJ(s.claim)}
+	reg := &verifiable.CredentialStatusResolverRegistry{}
+	reg.Register(verifiable.SparseMerkleTreeProof, statusResolver{func(st verifiable.CredentialStatus) (verifiable.RevocationStatus, error) {
+		return s.is.RevStatus(st.RevocationNonce), nil
+	}})
+	opt := verifiable.WithStatusResolverRegistry(reg)
+	verify := func() error {
+		calls := 0
+		_, err := guard(10*time.Second, func() (int, error) {
+			merklize.SetDocumentLoader(s.c.loader())
+			return 0, s.vc.VerifyProof(context.Background(), verifiable.BJJSignatureProofType, resolverCfg{mode: "published"}.resolver(&calls), opt)
+		})
+		return err
+	}
+	var why []string
+	e1 := verify()
+	e1b := verify()
+	if e1 != nil || e1b != nil {
+		why = append(why, fmt.Sprintf("a properly issued credential does not verify (twice with one options value): %v / %v", e1, e1b))
+	}
+	revoked := s.is.revs.Add(context.Background(), new(big.Int).SetUint64(s.is.authNonce), big.NewInt(0)) == nil
+	e2 := verify()
+	if revoked && e1 == nil && !errors.Is(e2, verifiable.ErrCredentialIsRevoked) {
+		why = append(why, fmt.Sprintf("the issuer's auth claim was revoked between two verifications that share one status-registry option: the second one gives %v instead of the 'revoked' error", e2))
+	}
+	out.Emit(Case{Op: "none", In: J{"authNonce": fmt.Sprint(s.is.authNonce)}, Impl: classify(e2), Prop: propOf(why), Tags: []string{"option-reused-across-verifications"}, NT: true})
+}
+
 func genC09(out *Out, r *Rng, tier string, n int, shard int) {
 	ctx := context.Background()
 	faults := statusFaults()
 	setupDefaultRegistry()
+	for k := 0; k < 2+n/10; k++ {
+		emitStatusOptionReuse(out, r)
+	}
 	for i := 0; i < n; i++ {
 		is := NewIssuer(r, r.Intn(5))
 		// revoked set: empty / sparse / dense / sharing low bits with the queried nonce
